@@ -673,6 +673,11 @@ func (env *Env) evalCall(x *ECall) SV {
 	case "chanClosed":
 		argn(1)
 		return mathBool(env.fc.ghostGet(env.st, "chanClosed", SBool, env.eval(x.Args[0]).one()))
+	case "allocmark":
+		// allocmark(): the allocation counter now; a reference r was allocated after
+		// the mark was taken iff r >= mark
+		argn(0)
+		return mathInt(env.st.alloc)
 	case "chanCap":
 		// chanCap(ch): the buffer size the channel was made with (0 = rendezvous)
 		argn(1)
